@@ -241,6 +241,30 @@ def scheduled_task(t):
   return 100 + t
 
 
+class NestedCount(agg_base.AggregateFn):
+  """Aggregate whose state holds a container that is updated in place (like rolling_stats.Counter or a sampler's reservoir):
+  {'n': [count]}.  Every state - the unsliced one and each slice's - has to be a container of its own."""
+
+  def create_state(self):
+    return {'n': [0]}
+
+  def update_state(self, state, *inputs):
+    state['n'][0] += len(inputs[0])
+    return state
+
+  def merge_states(self, states):
+    return {'n': [sum(s['n'][0] for s in states)]}
+
+  def get_result(self, state):
+    return state['n'][0]
+
+  def __eq__(self, other):
+    return isinstance(other, NestedCount)
+
+  def __hash__(self):
+    return hash('NestedCount')
+
+
 class RunningMax(agg_base.AggregateFn):
   """Aggregate whose state is a bare number: the running maximum of 3 - b over the rows it was fed (so 0 and negative
   values occur; the initial state is -inf).  A state that happens to be 0 is still a state."""
